@@ -11,6 +11,29 @@ def _lines(path):
     return [l for l in open(path).read().splitlines() if l.strip()]
 
 
+def _callers(repo):
+    """call sites of ResponseEncoder( / SetContentType( in goa's runtime packages, outside http/encoding.go"""
+    import re
+    out = {}
+    for top in ("http", "middleware", "pkg", "grpc"):
+        for d, _, files in os.walk(os.path.join(repo, top)):
+            if "codegen" in d or "testdata" in d:
+                continue
+            for f in files:
+                if not f.endswith(".go") or f.endswith("_test.go"):
+                    continue
+                rel = os.path.relpath(os.path.join(d, f), repo)
+                if rel == "http/encoding.go":
+                    continue
+                src = open(os.path.join(d, f), errors="replace").read()
+                src = re.sub(r"//[^\n]*", "", src)
+                for fn in ("ResponseEncoder", "SetContentType"):
+                    n = len(re.findall(r"\b" + fn + r"\(", src))
+                    if n:
+                        out[(rel, fn)] = n
+    return out
+
+
 def run(tier, replay=None):
     ck = Check("C15", "Encoding", tier)
     ck.coq_build()
@@ -27,6 +50,12 @@ def run(tier, replay=None):
     for f in res["failures"]:
         ck.failure(f["signature"], f["what"], {"input": f["input"]})
 
+    # inventory of the runtime code that produces responses through ResponseEncoder /
+    # SetContentType: every call site outside http/encoding.go must be one the harness drives
+    inv = _callers(vcheck.REPO)
+    known = {("http/mux.go", "ResponseEncoder"): 1}   # the muxer's NotFound handler (stream notfound)
+    undriven = sorted("%s calls %s x%d" % (f, fn, n) for (f, fn), n in inv.items() if known.get((f, fn)) != n)
+    undriven += sorted("%s no longer calls %s" % k for k in known if k not in inv)
     extra = res.get("extra", {})
     hyp_fail = extra.get("parser_hypothesis_failures") or []
     mism = None
@@ -47,6 +76,9 @@ def run(tier, replay=None):
         if not ck.violations:
             ck.unproved("the Encoding development no longer checks: " + ck.coq_error,
                         {"broken": "coq/Encoding build or case evaluation", "detail": ck.coq_error})
+    elif undriven and not ck.violations:
+        ck.unproved("the set of goa runtime call sites of ResponseEncoder/SetContentType changed; the check does not drive: " + "; ".join(undriven),
+                    {"broken": "inventory of response producers (http/*.go, http/middleware, middleware, pkg; tests and codegen excluded)", "detail": undriven})
     elif hyp_fail and not ck.violations:
         ck.unproved("the real mime.ParseMediaType violates a hypothesis the round-trip theorems put on the parser: " + hyp_fail[0],
                     {"broken": "parser_stable / parser_fixes_supported / parser_keeps_suffix on the observed parser", "detail": hyp_fail})
@@ -74,6 +106,7 @@ def run(tier, replay=None):
                            "distinct_inputs_over_model_cap": extra.get("distinct_over_model_cap")},
            "parser_answers_logged": extra.get("parser_answers_logged"),
            "parser_hypothesis_failures": len(hyp_fail),
+           "runtime_callers_inventory": ["%s: %s x%d" % (f, fn, n) for (f, fn), n in sorted(inv.items())],
            "exhaustive": False}
     return ck.finish(cov, assumptions=[
         "model Encoding/Model.v is hand-written from http/encoding.go (RequestDecoder, ResponseEncoder, SetContentType, ResponseDecoder, RequestEncoder, ErrorEncoder, text/unsupported codecs) plus a writer that freezes status and headers at the first WriteHeader, http/error.go StatusCode, pkg/error.go UnsupportedMediaTypeError; tied by evaluating it inside Coq on every distinct case the real code ran, with the real parser's logged answers as the oracle",
